@@ -1200,3 +1200,192 @@ Proof.
       destruct B as [B|[B1 B2]]; [left; congruence|]. right. split; [congruence|].
       destruct B2 as [(T & _)|[(T & _)|(_ & S & _)]]; [left; exact T|right; exact T|congruence].
 Qed.
+
+(* (2) a pre-candidate: complete case analysis of when its term changes *)
+Theorem precandidate_term_cases r m r' c :
+  r_state r = PreCandidate -> step r m = Ok (r', c) ->
+  (* unchanged *)
+  r_term r' = r_term r \/
+  (* (a) told of a higher term by a message that makes step adopt it: anything but a
+     pre-vote request, a granted pre-vote response, or a (pre-)vote request dropped
+     by the lease *)
+  (r_term r < m_term m /\ lease_drop r m = false /\ exempt m = false /\
+   (r_term r' = m_term m \/
+    (r_term r' = m_term m + 1 /\ (m_type m = MsgHup \/ m_type m = MsgTimeoutNow)))) \/
+  (* (b) the pre-vote is won: the real campaign runs *)
+  (m_type m = MsgRequestPreVoteResponse /\
+   (m_term m = 0 \/ m_term m = r_term r \/ (r_term r < m_term m /\ m_reject m = false)) /\
+   prevote_tally r m = VoteWon /\ r_term r' = r_term r + 1 /\
+   exists r1,
+     campaign_real false (with_votes r (Quorum.record_vote (t_votes (r_prs r)) (m_from m)
+                                          (negb (m_reject m)))) = Ok r1 /\
+     maybe_commit_by_vote r1 m = Ok r') \/
+  (* (c) a local MsgHup campaigns for real only without pre-vote or when the own
+     vote already is a quorum *)
+  (m_type m = MsgHup /\ (m_term m = 0 \/ m_term m = r_term r) /\ r_promotable r = true /\
+   (r_pre_vote r = false \/ self_wins r) /\ r_term r' = r_term r + 1).
+Proof.
+  intros Hs H. pose proof (step_term_cases _ _ _ _ H) as [_ [A|[(A1 & A2 & A3)|A]]];
+    [left; exact A| |right; left; exact A].
+  destruct A2 as [(T & _ & P & W)|[(_ & S & _)|(T & _ & W)]]; [|congruence|].
+  - right. right. right. split; [exact T|]. split; [|auto].
+    destruct A3 as [?|[?|(_ & _ & E)]]; [left; assumption|right; assumption|].
+    unfold exempt in E. rewrite T in E. discriminate.
+  - right. right. left. split; [exact T|].
+    assert (Hterm : m_term m = 0 \/ m_term m = r_term r \/ r_term r < m_term m /\ m_reject m = false).
+    { destruct A3 as [?|[?|(L & _ & E)]]; auto. right. right. split; [exact L|].
+      unfold exempt in E. rewrite T in E. cbn in E. destruct (m_reject m); [discriminate|reflexivity]. }
+    split; [exact Hterm|]. split; [exact W|]. split; [exact A1|].
+    (* re-run the step along the only path that reaches the tally *)
+    rewrite step_eq in H. ib H pre Hpre. apply step_pre_cases in Hpre.
+    destruct pre as [[ra ca]|ra].
+    { exfalso. okinv H. destruct Hpre as (_ & Hz & [(L & D & ->)|(L & Hl)]); [lia|].
+      apply low_term_reply_msgs_only, msgs_only_keeps, keeps_fields in Hl. lia. }
+    destruct Hpre as [[-> _]|(L & _ & E & Hf)].
+    + unfold step_body in H. rewrite T, Hs in H.
+      change (MsgRequestPreVoteResponse =? MsgHup) with false in H.
+      change ((MsgRequestPreVoteResponse =? MsgRequestVote) ||
+              (MsgRequestPreVoteResponse =? MsgRequestPreVote)) with false in H.
+      cbv iota in H.
+      apply step_candidate_cases in H; [|right; exact Hs].
+      destruct H as [K|[(Fl & _)|(_ & rp & res & Hp & Hc)]].
+      * apply keeps_fields in K. lia.
+      * unfold from_leader in Fl. rewrite T in Fl. discriminate.
+      * pose proof (poll_term _ _ _ _ _ Hp) as [_ [P|(_ & _ & _ & P)]].
+        -- apply maybe_commit_by_vote_keeps_t in Hc. destruct Hc as [[B _] _]. lia.
+        -- exists rp. split; assumption.
+    + exfalso. apply become_follower_facts in Hf. destruct Hf as (F1 & _).
+      pose proof (step_body_term _ _ _ _ H) as [_ B]. lia.
+Qed.
+
+(* ------------------------------------------------------------------ *)
+(* ticks *)
+
+Lemma tick_election_term r r' b : tick_election r = Ok (r', b) ->
+  cfg_of r' = cfg_of r /\
+  (r_term r' = r_term r \/
+   (r_term r' = r_term r + 1 /\ r_state r <> Leader /\ r_promotable r = true /\
+    r_randomized_election_timeout r <= r_election_elapsed r + 1 /\
+    (r_pre_vote r = false \/ self_wins r))).
+Proof.
+  unfold tick_election. intros H.
+  dtop H; [okinv H; split; [reflexivity|left; reflexivity]|].
+  apply orb_false_iff in Heqb0. destruct Heqb0 as [Hp Hq].
+  apply negb_false_iff in Hp, Hq. unfold pass_election_timeout in Hp. cbn in Hp, Hq.
+  ib H y Hy. okinv H. destruct y as [r1 c1]. cbn [fst].
+  apply step_term_cases in Hy. destruct Hy as [A [B|[(B1 & B2 & _)|(B & _)]]].
+  - split; [exact A|left; exact B].
+  - split; [exact A|]. right. split; [exact B1|].
+    destruct B2 as [(_ & S & P & W)|[(T & _)|(T & _)]]; try discriminate.
+    cbn in S, P, W. repeat split; try assumption. lia.
+  - cbn in B. lia.
+Qed.
+
+Lemma tick_heartbeat_term r r' b : tick_heartbeat r = Ok (r', b) -> keeps_t r r'.
+Proof.
+  unfold tick_heartbeat. intros H. ib H y Hy. destruct y as [r1 hr].
+  assert (K1 : keeps_t r r1).
+  { clear H. dtop Hy; [|okinv Hy; split; reflexivity].
+    ib Hy z Hz. destruct z as [ra ha]. okinv Hy.
+    assert (keeps_t r ra).
+    { dtop Hz; [|okinv Hz; split; reflexivity].
+      ib Hz w Hw. okinv Hz. destruct w as [rb cb]. cbn [fst].
+      apply step_term_cases in Hw. destruct Hw as [A [B|[(_ & B2 & _)|(B & _)]]].
+      - split; [exact B|exact A].
+      - destruct B2 as [(T & _)|[(T & _)|(T & _)]]; discriminate.
+      - cbn in B. lia. }
+    destruct (is_leader ra && _); [|assumption].
+    eapply keeps_t_trans; [eassumption|]. split; reflexivity. }
+  dtop H; [okinv H; exact K1|].
+  dtop H; [|okinv H; exact K1].
+  ib H z Hz. okinv H. destruct z as [rb cb]. cbn [fst].
+  apply step_term_cases in Hz. destruct Hz as [A [B|[(_ & B2 & _)|(B & _)]]].
+  - eapply keeps_t_trans; [exact K1|]. split; [exact B|exact A].
+  - destruct B2 as [(T & _)|[(T & _)|(T & _)]]; discriminate.
+  - cbn in B. lia.
+Qed.
+
+Lemma tick_term r r' b : tick r = Ok (r', b) ->
+  cfg_of r' = cfg_of r /\
+  (r_term r' = r_term r \/
+   (r_term r' = r_term r + 1 /\ r_state r <> Leader /\ r_promotable r = true /\
+    r_randomized_election_timeout r <= r_election_elapsed r + 1 /\
+    (r_pre_vote r = false \/ self_wins r))).
+Proof.
+  unfold tick. intros H.
+  destruct (r_state r) eqn:Es; try (apply tick_election_term in H; rewrite Es in H; exact H).
+  apply tick_heartbeat_term in H. destruct H as [A B]. split; [exact B|left; exact A].
+Qed.
+
+(* ------------------------------------------------------------------ *)
+(* traces: any sequence of delivered messages and ticks *)
+
+Inductive input := IStep (m : msg) | ITick.
+
+Definition apply_input (r : raft) (i : input) : Res raft :=
+  match i with
+  | IStep m => x <- step r m ;; Ok (fst x)
+  | ITick => x <- tick r ;; Ok (fst x)
+  end.
+
+Fixpoint run (r : raft) (ins : list input) : Res raft :=
+  match ins with
+  | [] => Ok r
+  | i :: rest => r1 <- apply_input r i ;; run r1 rest
+  end.
+
+(* an input that gives the node no reason to raise its term: no higher term that
+   step would adopt, no transfer order, no pre-vote response completing a quorum of
+   grants, and the node is not its own quorum *)
+Definition quiet (r : raft) (i : input) : Prop :=
+  match i with
+  | ITick => ~ self_wins r
+  | IStep m =>
+      (m_term m <= r_term r \/ exempt m = true \/ lease_drop r m = true) /\
+      m_type m <> MsgTimeoutNow /\
+      (m_type m = MsgHup -> ~ self_wins r) /\
+      (m_type m = MsgRequestPreVoteResponse -> r_state r = PreCandidate ->
+       prevote_tally r m <> VoteWon)
+  end.
+
+Fixpoint quiet_run (r : raft) (ins : list input) : Prop :=
+  match ins with
+  | [] => True
+  | i :: rest => quiet r i /\ forall r1, apply_input r i = Ok r1 -> quiet_run r1 rest
+  end.
+
+Theorem quiet_input_term r i r' :
+  r_pre_vote r = true -> quiet r i -> apply_input r i = Ok r' ->
+  r_term r' = r_term r /\ cfg_of r' = cfg_of r.
+Proof.
+  intros Hpv Hq H. destruct i as [m|]; cbn [apply_input] in H; ib H y Hy; okinv H;
+    destruct y as [r1 c]; cbn [fst].
+  - destruct Hq as (Q1 & Q2 & Q3 & Q4).
+    apply step_term_cases in Hy. destruct Hy as [A [B|[(_ & B2 & _)|(L & D & E & _)]]].
+    + split; assumption.
+    + exfalso. destruct B2 as [(T & _ & _ & [W|W])|[(T & _)|(T & S & W)]].
+      * congruence.
+      * apply (Q3 T W).
+      * contradiction.
+      * apply (Q4 T S W).
+    + exfalso. destruct Q1 as [Q|[Q|Q]]; [lia|congruence|congruence].
+  - cbn in Hq. apply tick_term in Hy. destruct Hy as [A [B|(_ & _ & _ & _ & [W|W])]].
+    + split; assumption.
+    + congruence.
+    + contradiction.
+Qed.
+
+(* (2, trace form) with pre-vote on, over any sequence of quiet inputs the term never
+   changes, whatever roles the node passes through *)
+Theorem quiet_run_term : forall ins r r',
+  r_pre_vote r = true -> quiet_run r ins -> run r ins = Ok r' ->
+  r_term r' = r_term r /\ cfg_of r' = cfg_of r.
+Proof.
+  induction ins as [|i rest IH]; intros r r' Hpv Hq H; cbn [run] in H.
+  - okinv H. split; reflexivity.
+  - destruct Hq as [Q1 Q2]. ib H r1 H1.
+    pose proof (quiet_input_term _ _ _ Hpv Q1 H1) as [A B].
+    pose proof (cfg_fields _ _ B) as (_ & Pv & _).
+    specialize (IH r1 r' (eq_trans Pv Hpv) (Q2 r1 H1) H). destruct IH as [C D].
+    split; congruence.
+Qed.
